@@ -4,7 +4,7 @@ Symbols: ('call', block) results of opaque calls (atomic RMW/loads, len(), next_
 from fractions import Fraction
 
 from .analysis import flow
-from .facts import op_local, op_place, op_int, Point
+from .facts import strip_generics, op_local, op_place, op_int, op_root, Point
 
 TOP = None
 
@@ -154,6 +154,12 @@ class Evaluator:
             return TOP
         if not p["proj"]:
             return self.local(p["local"], depth)
+        # payload of an Option / Result: (x as Some).0, (x as Ok).0
+        if len(p["proj"]) == 2 and isinstance(p["proj"][0], dict) and p["proj"][0].get("downcast") in ("Some", "Ok") \
+                and isinstance(p["proj"][1], dict) and p["proj"][1].get("field") == 0:
+            r0 = self.payload(p["local"], depth + 1)
+            if r0 is not TOP:
+                return r0
         # tuple field of a checked arithmetic result: (x op y).0
         fields = [e for e in p["proj"] if isinstance(e, dict) and "field" in e]
         if len(p["proj"]) == 1 and fields and fields[0]["field"] == 0 and fields[0]["of"] == "tuple":
@@ -203,6 +209,21 @@ class Evaluator:
             if d.endswith("mem::size_of") or d.endswith("mem::align_of"):
                 # a pure function of its type argument: every call with the same type is the same value
                 return Aff.sym((d.rsplit("::", 1)[-1], tuple(cal.get("substs", []))))
+            nm = cal.get("name", "")
+            args = getattr(data, "args", [])
+            if nm in ("expect", "unwrap", "unwrap_unchecked") and args and strip_generics(d).rsplit("::", 2)[-2:-1] in (["Option"], ["Result"]):
+                # the payload of a checked conversion / checked arithmetic: `usize::try_from(n).expect(..)`, `a.checked_add(b).unwrap()`
+                l0 = op_root(args[0])
+                r0 = self.payload(l0, depth + 1) if l0 is not None else TOP
+                if r0 is not TOP:
+                    return r0
+            if nm in ("from", "into") and len(args) == 1 and self._is_int(l) and op_root(args[0]) is not None and self._is_int(op_root(args[0])):
+                return self.operand(args[0], depth + 1)       # lossless integer conversion
+            if nm in ("wrapping_add", "wrapping_sub", "saturating_add", "saturating_sub") and len(args) == 2 and self._is_int(l):
+                # equal to the plain operation wherever that does not overflow -- which the build's overflow checks assume of `+` as well
+                a, b = self.operand(args[0], depth + 1), self.operand(args[1], depth + 1)
+                if a is not TOP and b is not TOP:
+                    return a + b if nm.endswith("add") else a - b
             return Aff.sym(("call", pt[0]))
         rv = data["rv"]
         if "use" in rv:
@@ -255,6 +276,74 @@ class Evaluator:
             if a is not TOP and ty != "bool":
                 return a.scale(-1) - Aff.const(1)
         return TOP
+
+    def _is_int(self, l):
+        t = self.body.ty(l).get("s", "") if l is not None and l < len(self.body.locals) else ""
+        return t in ("usize", "isize", "u8", "u16", "u32", "u64", "u128", "i8", "i16", "i32", "i64", "i128")
+
+    def payload(self, l, depth=0):
+        """form of the value inside an Option / Result local when every definition that carries one agrees: Some(v) / Ok(v) aggregates,
+        integer `try_from` / `try_into` (value-preserving when they succeed), `checked_add/sub/mul` (the plain result when they succeed),
+        and `and_then` / `map` with a closure of the crate (its result form with the parameter substituted)"""
+        if depth > 30 or l is None:
+            return TOP
+        key = ("payload", l)
+        if key in self.cache:
+            return self.cache[key]
+        self.cache[key] = TOP
+        body = self.body
+        forms = []
+        for d in [d for d in body.defs.get(l, []) if d[1] in ("assign", "call", "arg")]:
+            pt, kind, data = d
+            f = TOP
+            if kind == "assign":
+                rv = data["rv"]
+                if "agg" in rv and rv["agg"].get("variant") in ("Some", "Ok") and rv["ops"]:
+                    f = self.operand(rv["ops"][0], depth + 1)
+                elif "agg" in rv and rv["agg"].get("variant") in ("None", "Err"):
+                    continue
+                elif "use" in rv and op_place(rv["use"]) is not None and not op_place(rv["use"])["proj"]:
+                    f = self.payload(op_place(rv["use"])["local"], depth + 1)
+            elif kind == "call":
+                cal = getattr(data, "callee", None) or {}
+                nm = cal.get("name", "")
+                args = data.args
+                if nm in ("try_from", "try_into") and len(args) == 1:
+                    f = self.operand(args[0], depth + 1)
+                elif nm in ("checked_add", "checked_sub", "checked_mul") and len(args) == 2:
+                    a, b = self.operand(args[0], depth + 1), self.operand(args[1], depth + 1)
+                    if a is not TOP and b is not TOP:
+                        if nm == "checked_add":
+                            f = a + b
+                        elif nm == "checked_sub":
+                            f = a - b
+                        elif b.is_const():
+                            f = a.scale(b.c)
+                        elif a.is_const():
+                            f = b.scale(a.c)
+                elif nm in ("checked_shl", "checked_shr") and len(args) == 2:
+                    a, b = self.operand(args[0], depth + 1), self.operand(args[1], depth + 1)
+                    if a is not TOP and b is not TOP and b.is_const():
+                        f = a.scale(Fraction(2) ** int(b.c)) if nm == "checked_shl" else (
+                            floor_shift(a, b.c) if self.exact_shifts else a.scale(Fraction(1, 2 ** int(b.c))))
+                elif nm in ("and_then", "map") and len(args) == 2 and strip_generics(cal.get("def", "")).rsplit("::", 2)[-2:-1] in (["Option"], ["Result"]):
+                    inner = self.payload(op_root(args[0]), depth + 1) if op_root(args[0]) is not None else TOP
+                    cl = op_root(args[1])
+                    ch = body.ty(cl).get("head", "") if cl is not None else ""
+                    cb = body.facts.by_id.get(ch[len("closure:"):]) if ch.startswith("closure:") and getattr(body, "facts", None) else None
+                    if inner is not TOP and cb is not None and cb.nargs == 2:
+                        ev2 = type(self)(cb, self.exact_shifts)
+                        g = ev2.payload(0, depth + 1) if nm == "and_then" else ev2.local(0, depth + 1)
+                        if g is not TOP and all(s0 == ("arg", 2) for s0 in g.symbols()):
+                            f = g.subst(("arg", 2), inner) if g.symbols() else g
+                elif nm in ("ok", "copied", "cloned") and len(args) == 1:
+                    f = self.payload(op_root(args[0]), depth + 1) if op_root(args[0]) is not None else TOP
+            forms.append(f)
+        r = TOP
+        if forms and all(f is not TOP for f in forms) and len({f for f in forms}) == 1:
+            r = forms[0]
+        self.cache[key] = r
+        return r
 
     def def_forms(self, l):
         """[(def point, form)] for every whole definition of l"""
